@@ -278,6 +278,34 @@ def children_rules(ctx: Ctx, rule: str) -> None:
                "" if sel else "how flag_children selects its root node changed (other vms' or workers' nodes may match)")
 
 
+def intersection_target(ctx: Ctx, rule: str) -> None:
+    """flag_intersection sets the decision its flag_type names, on the node of *this* graph, bound to that node."""
+    fref = f"{GRAPH}:TestGraph.flag_intersection"
+    fn = ctx.repo.func(fref)
+    ctx.touch(fref)
+    loops = [l for l in fn.node.body if isinstance(l, ast.For) and ast.unparse(l.iter) == "self.nodes"]
+    ok, detail = False, None
+    if len(loops) == 1 and isinstance(loops[0].target, ast.Name):
+        nd = loops[0].target.id
+        last = loops[0].body[-1]
+        if isinstance(last, ast.If):
+            f = norm.formula(last.test)
+            run = norm.formula(ast.parse("flag_type == 'run'", mode="eval").body)
+            a, b = [ast.unparse(x) for x in last.body], [ast.unparse(x) for x in last.orelse]
+            if norm.equivalent(f, norm.neg(run)):
+                a, b = b, a
+                f = run
+            detail = {"run": a, "else": b}
+            ok = norm.equivalent(f, run) and a == [f"{nd}.should_run = flag.__get__({nd})"] and b == [f"{nd}.should_clean = flag.__get__({nd})"]
+        # skips: only non-overlapping nodes, and roots on request; an ambiguous match raises
+        conts = [i for i in loops[0].body if isinstance(i, ast.If) and any(isinstance(x, ast.Continue) for x in ast.walk(i))]
+        tests = [norm.formula(i.test) for i in conts]
+        want = [norm.formula(ast.parse(t, mode="eval").body) for t in ("len(matching_nodes) == 0", f"{nd}.is_shared_root() and skip_shared_root", f"{nd}.is_object_root() and skip_object_roots")]
+        ok = ok and len(tests) == 3 and all(any(norm.equivalent(t, w) for t in tests) for w in want)
+    ctx.record(rule, "TABLE", fref, "per node of this graph with exactly one counterpart in the other graph (none -> skipped, several -> ValueError; roots skipped on request): flag_type run -> should_run, else should_clean, bound to the node",
+               ok, detail or {}, "" if ok else "flag_intersection assigns the wrong decision (run/clean swapped), binds it to another node, or skips nodes for another reason")
+
+
 def children_table(ctx: Ctx, rule: str) -> None:
     """flag_children as a decision table: which root is selected, how it is narrowed, when it raises, which flag is set."""
     from ..kinds import TableSpec, table_rule
@@ -336,6 +364,7 @@ def children_table(ctx: Ctx, rule: str) -> None:
 
 def run(ctx: Ctx) -> None:
     ctx.call(children_table, "7t")
+    ctx.call(intersection_target, "6t")
     ctx.call(update_flags, "")
     ctx.call(update_pinning, "5")
     from .c05 import sync_table
@@ -354,6 +383,9 @@ def run(ctx: Ctx) -> None:
 
 
 MUTANTS = [
+    ("intersection-run-sets-clean", "cartgraph/graph.py", "            logging.debug(f\"The test {test_node} is assigned custom {activity} policy\")\n            if flag_type == \"run\":\n                test_node.should_run = flag.__get__(test_node)\n            else:\n                test_node.should_clean = flag.__get__(test_node)\n\n    \"\"\"parse and get",
+     "            logging.debug(f\"The test {test_node} is assigned custom {activity} policy\")\n            if flag_type != \"run\":\n                test_node.should_run = flag.__get__(test_node)\n            else:\n                test_node.should_clean = flag.__get__(test_node)\n\n    \"\"\"parse and get", "6t"),
+    ("intersection-nonoverlap-stops", "cartgraph/graph.py", "                logging.debug(f\"Skip flag for non-overlapping {test_node}\")\n                continue", "                logging.debug(f\"Skip flag for non-overlapping {test_node}\")\n                break", "6"),
     ("flag-run-sets-clean", "cartgraph/graph.py", "            if flag_type == \"run\":\n                test_node.should_run = flag.__get__(test_node)\n            else:\n                test_node.should_clean = flag.__get__(test_node)\n            if not skip_children:",
      "            if flag_type != \"run\":\n                test_node.should_run = flag.__get__(test_node)\n            else:\n                test_node.should_clean = flag.__get__(test_node)\n            if not skip_children:", "7t"),
     ("flag-root-selection-swapped", "cartgraph/graph.py", "        elif node_name == \"\":\n            root_tests = self.get_nodes(\n                param_key=\"object_root\",", "        elif node_name != \"\":\n            root_tests = self.get_nodes(\n                param_key=\"object_root\",", "7t"),
